@@ -222,11 +222,9 @@ Fixpoint hrun (fs : hostfs) (h : htfs) (os : list hop) : htfs * list (N * bytes)
 
 (* ---- the FTP session after login (services/ftp/cmd.go over ftpfs.go) ---- *)
 
-(* services/ftp/ftpfs.go: func (ftp *Fs) ChangeDir(path) { return ftp.ChangeDir(path) }
-   calls itself, not the embedded Htfs: unbounded recursion, the process dies of stack
-   exhaustion.  true = the code as it stands; false = after fixes/C11-*.patch. *)
-Definition FS_CHANGEDIR_RECURSES : bool := true.
-
+(* services/ftp/ftpfs.go: Fs.ChangeDir delegates to the embedded Htfs.ChangeDir (since the
+   repair of the self-call, /repo commit 6736570); CWD/XCWD and CDUP/XCUP (= CWD "..") go
+   through it. *)
 Inductive cmd :=
 | CPwd
 | CCwd (p : bytes)
@@ -271,17 +269,17 @@ Definition need_param (p : bytes) (k : unit -> option (sess * resp)) (s : sess) 
   end.
 
 Definition do_cwd (s : sess) (p : bytes) : option (sess * resp) :=
-  if FS_CHANGEDIR_RECURSES then None
-  else match change_dir (s_fs s) (s_h s) p with
-       | CdOk h' => Some (mkS (s_fs s) h' (s_rnfr s) (s_append s) (s_pos s), mkR [250] PNone [rp_of s p])
-       | _ => Some (s, mkR [550] PNone [rp_of s p])
-       end.
+  match change_dir (s_fs s) (s_h s) p with
+  | CdOk h' => Some (mkS (s_fs s) h' (s_rnfr s) (s_append s) (s_pos s), mkR [250] PNone [rp_of s p])
+  | _ => Some (s, mkR [550] PNone [rp_of s p])
+  end.
 
 Definition retr_data (c : bytes) (pos : Z) : bytes :=
   let start := (Z.of_nat (length c) + pos)%Z in
   if (start <? 0)%Z then c else skipn (Z.to_nat start) c.
 
-(* None = the process does not survive the command *)
+(* None = the process does not survive the command (no such command is left: see
+   Proofs.step_total) *)
 Definition step (s : sess) (c : cmd) : option (sess * resp) :=
   match c with
   | CPwd => Some (s, mkR [257] (PText (h_cwd (s_h s))) [])
